@@ -9,6 +9,9 @@
 (* its logged fields are checked:                                           *)
 (*  NewSpec   [spec]                                                        *)
 (*  BuildGrid []                                                            *)
+(*  Inspect   []                       the partial matrices of run_grid     *)
+(*                                     (only_position / only_orientation)   *)
+(*                                     asked of the grid object; stuttering *)
 (*  Write/Read[art, digest]            digest id of shape+values+order      *)
 (*  ComputeEnergy []                   lattice energies assigned per cell   *)
 (*  BuildRate [n, adj <<[i,j]>>, cond <<[i,j,id]>>, sh <<[i,j,id]>>,        *)
@@ -69,6 +72,7 @@ TraceNext ==
                                 ELSE IF Key(Ev.art) \notin DOMAIN written \/ written[Key(Ev.art)] # Ev.digest
                                      THEN "read back differs from what was written: " \o Ev.art ELSE "ok")
                        /\ UNCHANGED written
+     \/ Ev.ev = "Inspect" /\ Check(IF Ev.err # "" THEN "exception:" \o Ev.err ELSE "ok") /\ UNCHANGED <<vars, written>>     \* partial (position-only / orientation-only) matrices asked of the grid object: no artefact changes
      \/ Ev.ev = "GenPT" /\ GenPT /\ UNCHANGED written
      \/ Ev.ev = "ComputeEnergy" /\ ComputeEnergy /\ UNCHANGED written
      \/ Ev.ev = "BuildRate" /\ BuildRate /\ Check(RateClause(Ev)) /\ UNCHANGED written
